@@ -57,7 +57,7 @@ def main():
             res["apply_log"] = out[-2000:]
         touched = sorted({"./" + os.path.dirname(m) + "/" for m in re.findall(r'^\+\+\+ b/(\S+\.go)', open(os.path.join(d, "patch.diff")).read(), re.M)})
         pkgs = meta.get("packages") or touched
-        rc, out = sh("go build ./... && go vet %s" % " ".join(touched), wt)
+        rc, out = sh("go build ./...", wt)  # the baseline runs with -vet=off: pre-existing vet complaints are not the patch's
         res["steps"]["builds"] = rc == 0
         if rc != 0:
             res["build_log"] = out[-2000:]
